@@ -282,9 +282,10 @@ class StmtMixin:
             a, b = q.fork(), q.fork()
             a.assume(t)
             b.assume(Not(t))
-            if self.feasible_quick(a):
+            prune = getattr(self.contract, "prune", False)
+            if self.feasible_quick(a) and not (prune and self.infeasible(a)):
                 res += self.exec_block(st.body, a)
-            if self.feasible_quick(b):
+            if self.feasible_quick(b) and not (prune and self.infeasible(b)):
                 res += self.exec_block(st.orelse, b) if st.orelse else [Outcome("next", b)]
         return res + self._raises(R)
 
@@ -561,6 +562,10 @@ class StmtMixin:
                 else:
                     res.append(o)
         for e in ex_paths:
+            for fi, fact in enumerate(lp.exit_facts):
+                f = fact(self.loop_ctx(e, lp, k=kk, extra=extra))
+                self.oblige(e, f"L{line}/loop{k}/exit-fact{fi + 1}", f, kind="inv")
+                e.assume(f)
             if st.orelse:
                 res += self.exec_block(st.orelse, e)
             else:
